@@ -38,7 +38,7 @@ func (g *G[P, F, S]) SpecialClass(i int) string { return g.pl.sp[i].class }
 
 func drawGroup(t *rapid.T) groupT {
 	gs := groups()
-	g := gs[rapid.IntRange(0, len(gs)-1).Draw(t, "group")]
+	g := gs[uniform(t, "group", len(gs))]
 	g.Prepare(t)
 	return g
 }
@@ -254,10 +254,11 @@ func TestGroupOpsDrawn(t *testing.T) {
 func drawScalarInt(t *rapid.T, label string, n *big.Int) (*big.Int, string) {
 	one := big.NewInt(1)
 	bits := n.BitLen()
-	cl := rapid.SampledFrom([]string{
+	scalarClasses := []string{
 		"0", "1", "2", "3", "N-1", "N-2", "N", "N+1", "2N-1", "(N-1)/2", "(N+1)/2", "2^k", "2^k-1", "2^k+1",
-		"8k", "nibbles", "lowhamming", "small", "drawn", "drawn", "drawn", "drawn",
-	}).Draw(t, label+"/class")
+		"8k", "nibbles", "lowhamming", "small", "drawn", "drawn", "drawn", "drawn", "drawn", "drawn",
+	}
+	cl := scalarClasses[uniform(t, label+"/class", len(scalarClasses))]
 	k := new(big.Int)
 	switch cl {
 	case "0":
@@ -335,10 +336,10 @@ func (g *G[P, F, S]) ScalarMulCase(t *rapid.T) {
 	const test = "ScalarMul"
 	c := g.ref
 	var x opnd[P]
-	if rapid.IntRange(0, 99).Draw(t, "useG") < 25 {
+	if uniform(t, "useG", 100) < 25 {
 		x = opnd[P]{lib: g.cv.PrimeSubGroupGenerator(), ref: c.G, class: "generator", rep: "aff", a: big.NewInt(1), sub: true}
 	} else {
-		x = g.drawOpnd(t, "x", 45, false)
+		x = g.drawOpnd(t, "x", 55, false)
 	}
 	methods := []string{"ScalarMul", "ScalarMul", "ScalarOp", "autils", "autilsNat", "IsTorsionFree"}
 	if x.class == "generator" && g.baseMul != nil {
